@@ -131,7 +131,7 @@ _counter = [0]
 
 
 def run(exe, args, stdin_data=None, stdin_path=None, env=None, timeout=180, workdir=None, stats=None,
-        out_name=None, keep=False, tag="r", allow_timeout=False):
+        out_name=None, keep=False, tag="r", allow_timeout=False, prefill_stats=None):
     """Run fastpasta. stats: 'json'|'toml' adds -S <file> -D <fmt>; out_name adds -o <file>.
     stdin_path feeds a file through a pipe (cat-like) so that the tool sees a pipe, not a file."""
     r = Run()
@@ -144,6 +144,10 @@ def run(exe, args, stdin_data=None, stdin_path=None, env=None, timeout=180, work
     if stats:
         stats_path = os.path.join(wd, uid + "." + stats)
         argv += ["-S", stats_path, "-D", stats]
+        if prefill_stats is not None:
+            # the statistics path already holds an (older, longer) file: re-using a path is ordinary use
+            with open(stats_path, "wb") as f:
+                f.write(prefill_stats)
     if out_name:
         out_path = os.path.join(wd, uid + ".out")
         argv += ["-o", out_path]
